@@ -106,7 +106,7 @@ macro_rules! split_instance {
     };
 }
 
-// @verif id=VS.split.a props=C18,C02,C19 tier=quick timeout=900
+// @verif id=VS.split.a props=C18,C02,C19,C17 tier=quick timeout=900
 // @functions VirtualSocket::split_tx_queue_into_segments, Segments::enqueue, Segments::pop_expired_mtu_probe, SegmentSizes::next_segment_size
 // @bounds MSS 4 (no probing range); 6 bytes buffered (wrapped in the ring), nothing in flight; ANY peer window (u32); Nagle on/off symbolic
 // @asserts segments are min(MSS, window left, bytes left) each, in order; Nagle never holds data when nothing is in flight for the FIRST segment, but holds the trailing partial one (earlier data unacknowledged); Nagle off: everything up to the window; unsegmented remainder recorded
